@@ -49,7 +49,7 @@ def run_job(job, w):
             r = harness.run_scenario(flowir, script, loc, perturb_seed=sc["pseed"],
                                      jitter_p=sc["jitter_p"], jitter_max=sc["jitter_max"], storm=sc["storm"],
                                      watchdog_s=job.get("watchdog_s", 120.0), continue_on_error=False,
-                                     extra_files=extra)
+                                     extra_files=extra, slow_stagein=sc.get("slow_stagein"))
         finally:
             shutil.rmtree(loc, ignore_errors=True)
         w.evaluated()
@@ -110,6 +110,8 @@ def make_scenarios(n, salt, thorough):
     for i in range(n):
         pair = scenarios.gen_pair(rng, max_stages=3, max_comps=7 if not thorough else 8,
                                   p_repeat=rng.choice([0.15, 0.3, 0.45]))
+        if i % 3 == 1:
+            quick_subjects(rng, pair)
         out.append({**pair, "pseed": rng.randrange(1 << 30), "jitter_p": rng.choice([0.0, 0.2, 0.5, 0.8]),
                     "jitter_max": rng.choice([0.005, 0.02, 0.05]), "storm": rng.random() < 0.7})
     # DoWhile slice: every 10th scenario is a loop package (up to 3 further iterations in quick, 12 in thorough)
@@ -119,6 +121,30 @@ def make_scenarios(n, salt, thorough):
         out[i] = {**dw, "pseed": rng.randrange(1 << 30), "jitter_p": rng.choice([0.0, 0.3, 0.6]),
                   "jitter_max": 0.02, "storm": rng.random() < 0.5}
     return out
+
+
+def quick_subjects(rng, pair):
+    """Subjects (same-stage producers of a repeating observer) that end badly within milliseconds of being launched:
+    their exit, post-mortem check and finished-notification land around the moment the scheduler decides about, stages
+    in and runs the observer - the window between the scheduler's decision and the launch."""
+    from rt import wfgen
+    nodes = wfgen.expand(pair["wf"])
+    comps = pair["script"]["components"]
+    for ref, nd in nodes.items():
+        if not nd.get("repeat"):
+            continue
+        for p in nd["preds"]:
+            pn = nodes[p]
+            if pn["stage"] != nd["stage"] or pn.get("repeat") or rng.random() < 0.3:
+                continue
+            so = pn.get("shutdownOn") or []
+            reason = so[0] if (so and rng.random() < 0.7) else rng.choice(["KnownIssue", "SystemIssue"])
+            comps[p] = [{"reason": reason, "duration": rng.choice([0.02, 0.05, 0.1, 0.2, 0.4])}]
+            if rng.random() < 0.6:
+                # ... and the observer's stage-in is slow enough (30-60 virtual s) for the subject's task to exit, its
+                # 25 s post-mortem analysis to end and its finished-notification to be handled meanwhile
+                pair.setdefault("slow_stagein", {})[ref] = rng.choice([30.0, 40.0, 60.0])
+    pair["quick_subjects"] = True
 
 
 def main():
